@@ -23,7 +23,7 @@ RULE = (
     "oracle = reference pipeline assembled from explicitly constructed NumPy objects on the samples that were written."
 )
 ASSUMPTIONS = [
-    "tools are called in-process through pydrobert.speech.command_line (the console scripts are thin wrappers)",
+    "tools are called through pydrobert.speech.command_line (the console scripts are thin wrappers): in-process, except that the second run of the fixed-seed clause is made in a new interpreter with another PYTHONHASHSEED in two cases of three",
     "stored values compared at 2e-4 relative to the matrix maximum (float32 storage, single-precision filter parameters in the torch tool)",
     "value comparison uses deterministic pre-processors (preemphasis, dither with coeff 0); dither > 0 is covered by the fixed-seed metamorphic clause",
     "cases whose reference pipeline itself raises (e.g. variance normalisation of a single frame, deltas of an empty matrix) are outside the domain and discarded",
@@ -195,7 +195,23 @@ def _compare(utt, got, ref, kaldi):
 # ----------------------------------------------------------------- kaldi tool
 
 
-def _run_kaldi(case, td, syntax, tag):
+def _invoke(entry, title, args, fresh):
+    """Call a command-line entry point in-process or (fresh = a PYTHONHASHSEED) in a new interpreter."""
+    from pydrobert.speech import command_line
+
+    if fresh is None:
+        with _quiet():
+            return call(title, getattr(command_line, entry), args)
+    from ..faults import fresh as fr
+
+    status = fr.run_entry(entry, args, fresh)
+    # 0: the entry point returned 0 / None; 3: it returned a non-zero code (its own way of reporting e.g. a skipped
+    # utterance); anything else: it raised
+    require(status in (0, 3), "{} in a new interpreter (PYTHONHASHSEED={}) died with status {}", title, fresh, status)
+    return 0 if status == 0 else 1
+
+
+def _run_kaldi(case, td, syntax, tag, fresh=None):
     from pydrobert.speech import command_line
     from pydrobert.kaldi import io as kio
 
@@ -226,8 +242,7 @@ def _run_kaldi(case, td, syntax, tag):
         args += ["--postprocess", _write_config(_post_cfg(case["post"], key), syntax, os.path.join(td, "post_" + tag))]
     if case.get("seed") is not None:
         args += ["--seed", str(case["seed"])]
-    with _quiet():
-        rc = call("compute-feats-from-kaldi-tables", command_line.compute_feats_from_kaldi_tables, args)
+    rc = _invoke("compute_feats_from_kaldi_tables", "compute-feats-from-kaldi-tables", args, fresh)
     stored = {}
     if os.path.exists(ark) and os.path.getsize(ark):
         with kio.open("ark:" + ark, "bm") as t:
@@ -345,7 +360,7 @@ def _torch_inputs(case):
     return out
 
 
-def _run_torch(case, td, syntax, tag, seed=None, workers=0):
+def _run_torch(case, td, syntax, tag, seed=None, workers=0, fresh=None):
     import torch
     from pydrobert.speech import command_line
 
@@ -383,8 +398,7 @@ def _run_torch(case, td, syntax, tag, seed=None, workers=0):
                 if i < len(case["utts"]):
                     f.write("%s\n" % _uid(case, i))
         args += ["--manifest", manifest]
-    with _quiet():
-        rc = call("signals-to-torch-feat-dir", command_line.signals_to_torch_feat_dir, args)
+    rc = _invoke("signals_to_torch_feat_dir", "signals-to-torch-feat-dir", args, fresh)
     stored = {}
     if os.path.isdir(outdir):
         for fn in sorted(os.listdir(outdir)):
@@ -450,13 +464,17 @@ def check_seed(case):
             raise Discard()
         # same domain as the value clauses (e.g. no filter without a DFT bin for the torch tool)
         _reference(dict(c, pre=[], post=[]), {})
+    # two invocations of a command are two processes: the second run is (in half of the cases) made in a new
+    # interpreter with another string-hash salt; the others stay in-process under different ambient RNG state
+    fresh = case.get("fresh")
+    how = "" if fresh is None else " (second run in a new interpreter, PYTHONHASHSEED=%d)" % fresh
     with tempfile.TemporaryDirectory(prefix="verif_c09_") as td:
         if case["tool"] == "kaldi":
             c["seed"] = case["seed"]
             rc1, s1, raw1 = _run_kaldi(c, td, "inline", "a")
             np.random.seed(12345)  # the fixed --seed, not ambient RNG state, must decide
-            rc2, s2, raw2 = _run_kaldi(c, td, "inline", "b")
-            require(raw1 == raw2, "two runs with --seed {} differ", case["seed"])
+            rc2, s2, raw2 = _run_kaldi(c, td, "inline", "b", fresh=fresh)
+            require(raw1 == raw2, "two runs with --seed {} differ{}", case["seed"], how)
             c["seed"] = case["seed"] + 1
             rc3, s3, raw3 = _run_kaldi(c, td, "inline", "c")
             # not part of the statement, only a measure of what the case could see: if another seed gives the same
@@ -467,15 +485,16 @@ def check_seed(case):
 
             rc1, s1, _ = _run_torch(c, td, "inline", "a", seed=case["seed"])
             torch.manual_seed(999)
-            rc2, s2, _ = _run_torch(c, td, "inline", "b", seed=case["seed"], workers=case.get("workers", 0))
+            rc2, s2, _ = _run_torch(c, td, "inline", "b", seed=case["seed"], workers=case.get("workers", 0), fresh=fresh)
             require(set(s1) == set(s2), "two runs stored different utterance sets")
             for u in s1:
-                require(np.array_equal(s1[u], s2[u]), "{}: two runs with --seed {} differ (num-workers {} vs 0)", u, case["seed"], case.get("workers", 0))
+                require(np.array_equal(s1[u], s2[u]), "{}: two runs with --seed {} differ (num-workers {} vs 0){}", u, case["seed"], case.get("workers", 0), how)
             rc3, s3, _ = _run_torch(c, td, "inline", "c", seed=case["seed"] + 1)
             visible = any(not np.array_equal(s1[u], s3[u]) for u in s1)
     return {"nontrivial": visible and len(case["utts"]) >= 2,
             "labels": ["tool=" + case["tool"], "workers" if case.get("workers") else "noworkers",
-                       "dither visible in the features" if visible else "dither invisible in the features"]}
+                       "dither visible in the features" if visible else "dither invisible in the features",
+                       "second run in a new interpreter" if fresh is not None else "second run in-process"]}
 
 
 # ----------------------------------------------------------------- generators
@@ -569,13 +588,14 @@ def _seed_cases(draw):
     tool = draw(st.sampled_from(["kaldi", "torch"]))
     base = draw(_kaldi_cases() if tool == "kaldi" else _torch_cases())
     base["dither"] = draw(st.sampled_from([1.0, 0.5, 20.0]))
-    base["seed"] = draw(st.integers(0, 10 ** 6))
+    base["seed"] = draw(st.one_of(st.just(0), st.integers(0, 10 ** 6), st.integers(1, 2 ** 31 - 2)))  # 0 is a valid seed
     base["manifest"] = None
     base["other_syntax"] = None
     base["workers"] = draw(st.sampled_from([0] * 5 + [2]))
     for u in base["utts"]:
         u.pop("rate", None)
     base["min_duration"] = 0
+    base["fresh"] = draw(st.sampled_from([None, 1, 2]))
     return base
 
 
@@ -585,5 +605,5 @@ def clauses(tier):
         Clause("kaldi_tool", check_kaldi, "compute-feats-from-kaldi-tables vs the library pipeline; " + nt, _kaldi_cases, quick=140, thorough=4000),
         Clause("torch_tool", check_torch, "signals-to-torch-feat-dir vs the library pipeline; " + nt, _torch_cases, quick=450, thorough=9000),
         Clause("fixed_seed", check_seed, "dither > 0: the same --seed twice gives identical output (second run under different ambient RNG state / worker count); non-trivial = >= 2 utterances and another seed changes the output (the dither is visible in the features)", _seed_cases,
-               quick=30, thorough=800),
+               quick=32, thorough=800, quick_shards=8),
     ]
